@@ -7,6 +7,7 @@ spec -> code  every behaviour TLC emits (exhaustive to a depth, simulated deeper
               (the verdict) and the write outcome with the model's (fidelity, drift only).
 code -> spec  a seeded random driver of the real objects records events which FieldImmutTrace.tla validates."""
 import random
+import tempfile
 
 import numpy as np
 
@@ -14,6 +15,10 @@ from vf import tlc as tlcmod
 from vf import trace as tracemod
 
 WRITE_ERRORS = (ValueError, TypeError, RuntimeError)
+
+
+class _Sub(np.ndarray):
+    """an ndarray subclass (like np.memmap, np.recarray, astropy Quantity ...)"""
 
 
 class World:
@@ -82,6 +87,12 @@ class World:
             arr = (np.arange(4.) + 1 + c) * (1 + 0.5j)
             if self.geom == "0d":
                 arr = np.array((1. + c) * (1 + 0.5j))
+            if k == "memmap" and arr.ndim:
+                mm = np.memmap(tempfile.TemporaryFile(), dtype=arr.dtype, mode="w+", shape=arr.shape)
+                mm[...] = arr
+                arr = mm
+            elif k in ("subclass", "memmap"):
+                arr = arr.view(_Sub)        # the only handle that is kept: the source array of everything that follows
             return self.new_arr(arr), False
         if a == "ViewOfArr":
             p = self.arrs[x]
@@ -104,6 +115,11 @@ class World:
                 f = ift.Field.from_raw(d, arr)
             elif k == "makeField":
                 f = ift.makeField(d, arr)
+            elif k == "PS_field":
+                if arr.shape == (4,):
+                    f = ift.PS_field(ift.PowerSpace(ift.RGSpace(6, harmonic=True)), lambda kl, arr=arr: arr)    # a callable that hands out an array it keeps
+                else:
+                    f = ift.Field(d, arr)
             elif k == "mf_from_raw":
                 md = ift.MultiDomain.make({"k": d, "z": self.dom((2,))})
                 f = ift.MultiField.from_raw(md, {"k": arr, "z": np.ones(2)})["k"]
@@ -282,14 +298,14 @@ def record_trace(rng, nsteps, geom="1d", aliases=False):
         na, nw, nf = len(w.arrs) - 1, len(w.wraps) - 1, len(w.fields) - 1
         cands = []
         if na < MAXA and nbuf < MAXA:
-            cands.append(("NewArray", "own", 0))
+            cands += [("NewArray", k, 0) for k in ("own", "own", "subclass", "memmap")]
         for a in range(1, na + 1):
             if na < MAXA:
                 cands += [("ViewOfArr", k, a) for k in ("slice", "reshape", "real")]
             if nw < MAXW:
                 cands.append(("WrapArr", "AnyArray", a))
             if nw < MAXW and nf < MAXF and (aliases or not w.other_writable_alias(w.arrs[a])):
-                cands += [("ConstructFromArr", k, a) for k in ("Field", "from_raw", "makeField", "mf_from_raw", "mf_from_dict")]
+                cands += [("ConstructFromArr", k, a) for k in ("Field", "from_raw", "makeField", "mf_from_raw", "mf_from_dict", "PS_field")]
             cands += [("WriteArr", k, a) for k in ("setitem", "iadd", "ufunc_out", "copyto", "fill")]
         for x in range(1, nw + 1):
             if nf < MAXF and (aliases or not w.other_writable_alias(w.wraps[x].val)):
@@ -330,9 +346,14 @@ MaxField = %d
 MaxOps = %d
 LockClearsNumpyFlag = %s
 AllowEarlierViews = %s
+Flavours = {"own"}
 KeepHist = "%s"
 EmitHist = %s
 """
+
+
+ONLY_OWN = 'Flavours = {"own"}'
+ALL_FLAVOURS = 'Flavours = {"own", "subclass", "memmap"}'
 
 
 def run(ctx):
@@ -367,13 +388,16 @@ def run(ctx):
     e = ctx.tlc("FieldImmut", CFG % (3, 3, 2, depth, "TRUE", "FALSE", "all", "TRUE") + "SPECIFICATION Spec\nINVARIANT Emit\nCHECK_DEADLOCK FALSE\n",
                 label="emit all histories of length %d" % depth, workers=1, timeout=1700)
     hists = [d["hist"] for d in e.emitted]
+    e2 = ctx.tlc("FieldImmut", (CFG % (3, 3, 2, depth - 1, "TRUE", "FALSE", "all", "TRUE")).replace(ONLY_OWN, 'Flavours = {"subclass", "memmap"}') + "SPECIFICATION Spec\nINVARIANT Emit\nCHECK_DEADLOCK FALSE\n",
+                 label="emit all histories of length %d over subclass / memory-mapped arrays" % (depth - 1), workers=1, timeout=1700)
+    hists += [d["hist"] for d in e2.emitted]
     nsim = 1500 if q else 12000
-    s = ctx.tlc("FieldImmut", CFG % (5, 5, 3, 10, "TRUE", "FALSE", "all", "TRUE") + "SPECIFICATION Spec\nINVARIANT Emit\nCHECK_DEADLOCK FALSE\n",
+    s = ctx.tlc("FieldImmut", (CFG % (5, 5, 3, 10, "TRUE", "FALSE", "all", "TRUE")).replace(ONLY_OWN, ALL_FLAVOURS) + "SPECIFICATION Spec\nINVARIANT Emit\nCHECK_DEADLOCK FALSE\n",
                 label="simulate %d histories of length 10" % nsim, workers=1, simulate=nsim, depth=11, seed=ctx.seed + 1, timeout=1700)
     hists += [d["hist"] for d in s.emitted]
     if len(hists) < 100:
         raise tlcmod.MachineryError("too few behaviours emitted: %d" % len(hists))
-    sa = ctx.tlc("FieldImmut", CFG % (5, 5, 3, 10, "TRUE", "TRUE", "all", "TRUE") + "SPECIFICATION Spec\nINVARIANT Emit\nCHECK_DEADLOCK FALSE\n",
+    sa = ctx.tlc("FieldImmut", (CFG % (5, 5, 3, 10, "TRUE", "TRUE", "all", "TRUE")).replace(ONLY_OWN, ALL_FLAVOURS) + "SPECIFICATION Spec\nINVARIANT Emit\nCHECK_DEADLOCK FALSE\n",
                  label="simulate %d histories with earlier aliases" % (nsim // 2), workers=1, simulate=nsim // 2, depth=11, seed=ctx.seed + 2, timeout=1700)
     ahists = [d["hist"] for d in sa.emitted]
     nviol = 0
@@ -407,7 +431,7 @@ def _recorded(ctx, rng, ntr, aliases):
     traces = [record_trace(rng, rng.randint(6, 16), "0d" if i % 3 == 2 else "1d", aliases) for i in range(ntr)]
     slim = [[{k: v for k, v in ev.items() if k != "what"} for ev in t] for t in traces]
     tv = tracemod.validate(ctx, "FieldImmutTrace",
-                           slim, cfg=CFG % (MAXA, MAXW, MAXF, 100, "TRUE", "TRUE" if aliases else "FALSE", "last", "FALSE") +
+                           slim, cfg=(CFG % (MAXA, MAXW, MAXF, 100, "TRUE", "TRUE" if aliases else "FALSE", "last", "FALSE")).replace(ONLY_OWN, ALL_FLAVOURS) +
                            "SPECIFICATION TSpec\nCONSTRAINT Progress\nPOSTCONDITION Report\nINVARIANT %s\n" % ("HandleProtected" if aliases else "Immutable"),
                            label="%d recorded traces%s" % (ntr, " (earlier aliases)" if aliases else ""))
     if tv.tlc.violated:
@@ -436,9 +460,10 @@ def selftest(ctx):
     j = next(j for j, e in enumerate(slim[tgt]) if e["a"].startswith("Write"))
     slim[tgt][j]["landed"] = not slim[tgt][j]["landed"]
     slim[(tgt + 1) % 20][0]["changed"] = True
-    tv = tracemod.validate(ctx, "FieldImmutTrace", slim, cfg=CFG % (MAXA, MAXW, MAXF, 100, "TRUE", "FALSE", "last", "FALSE") +
+    tv = tracemod.validate(ctx, "FieldImmutTrace", slim, cfg=(CFG % (MAXA, MAXW, MAXF, 100, "TRUE", "FALSE", "last", "FALSE")).replace(ONLY_OWN, ALL_FLAVOURS) +
                            "SPECIFICATION TSpec\nCONSTRAINT Progress\nPOSTCONDITION Report\n", label="selftest")
-    ok = tv.rejected == [tgt] and tv.maxl[tgt] == j and [(t, l) for t, l, _ in tv.propfail] == [((tgt + 1) % 20, 1)]
+    pf = {(t, l) for t, l, _ in tv.propfail}
+    ok = tv.rejected == [tgt] and tv.maxl[tgt] == j and ((tgt + 1) % 20, 1) in pf and pf <= {((tgt + 1) % 20, 1), (tgt, j + 1)}
     return dict(ok=ok, mutation="flipped one write outcome; set one changed flag", rejected=tv.rejected, propfail=tv.propfail[:3])
 
 
